@@ -70,6 +70,40 @@ theorem C06_fused (op : Op) : (Cursor.step ([] : List Int) op).1 = [] ∧
 theorem C06_len (l : List Int) (ops : List Op) :
     (Cursor.step (Cursor.run l ops).1 .len).2 = .len (Cursor.run l ops).1.length := rfl
 
+/-- one operation leaves a contiguous piece of what was there -/
+theorem cursor_step_infix {α} (l : List α) (op : Op) : (Cursor.step l op).1 <:+: l := by
+  cases op with
+  | next => exact (List.tail_suffix l).isInfix
+  | nextBack => exact (List.dropLast_prefix l).isInfix
+  | nth k => exact (List.drop_suffix _ l).isInfix
+  | nthBack k =>
+    have h : (l.reverse.drop (k + 1)).reverse <+: l.reverse.reverse :=
+      List.reverse_prefix.mpr (List.drop_suffix _ _)
+    rw [List.reverse_reverse] at h
+    exact h.isInfix
+  | len => exact List.infix_rfl
+  | sizeHint => exact List.infix_rfl
+
+/-- whatever the history, what remains is a contiguous piece of the original sequence: nothing is
+reordered, nothing yielded from one end comes back, front and back never cross -/
+theorem C06_remaining_infix {α} (ops : List Op) : ∀ (l : List α), (Cursor.run l ops).1 <:+: l := by
+  induction ops with
+  | nil => intro l; exact List.infix_rfl
+  | cons op ops ih =>
+    intro l
+    simp only [Cursor.run]
+    exact (ih _).trans (cursor_step_infix l op)
+
+/-- so the remaining items of `iter()` are always ascending, and `len()` never grows -/
+theorem C06_remaining_sorted (D : Derive) (h : D.WF) (ops : List Op) :
+    (Cursor.run (spec.iter D.sem) ops).1.Pairwise (· < ·) ∧
+    (Cursor.run (spec.iter D.sem) ops).1.length ≤ D.numValues := by
+  have hi := C06_remaining_infix ops (spec.iter D.sem)
+  have hs : (spec.iter D.sem).Pairwise (· < ·) := by unfold spec.iter; rw [D.sem_discs]; exact h.sorted
+  refine ⟨List.Pairwise.sublist hi.sublist hs, ?_⟩
+  have := hi.length_le
+  simpa [spec.iter, EnumSem.discs, Derive.sem, Derive.numValues] using this
+
 /-- the forwarding modes (range, table, table_inline — and `names()`) are what the model says they are:
 over the regenerated inventory, every method of `extend_common` calls the same-named method of the inner
 std iterator with the same arguments in the same order (`len` of the range mode: `size_hint().0`), and all
